@@ -260,5 +260,6 @@ def main(chk):
     for i in (0, len(progs) // 2, len(progs) - 1):
         chk.sample({"program": progs[i], "expected_trace": cases[i][2], "expected": cases[i][3],
                     "impl": {k: res[i]["impl"].get(k) for k in ("kind", "repr", "errk", "out")}, "model_verdict": res[i]["verdict"]})
+    chk.cov["rule"] += " Added after seeded round 5: an element / result / receiver that is an inherited nil, a receiver that is a descendant of Arr with its own _iter."
     return pancore.conclude(chk, ok, broken, "Props/C04.v", res, viol, model_only, "C04",
                             "Core.Interp (prop_chain, lit_chain) vs evaluator/eval_{propcall,literalcall}_chain.go")
